@@ -4,7 +4,7 @@ from pyvc.contracts import Registry
 
 def build():
     R = Registry()
-    from . import theory, c_cropping_batch, c_cropping_reap, c_stats, c_runner, c_prepare, c_labels, c_cropping_grow, c_cropping_progress, c_fs, c_manage
+    from . import theory, c_cropping_batch, c_cropping_reap, c_stats, c_runner, c_prepare, c_labels, c_cropping_grow, c_cropping_progress, c_fs, c_manage, c_format
     theory.install(R)
     c_cropping_batch.install(R)
     c_cropping_reap.install(R)
@@ -37,6 +37,7 @@ def build():
     c_manage.install_harvester3(R)
     c_manage.install_harvester4(R)
     c_manage.install_meta(R)
+    c_format.install(R)
     # calls dropped as no-ops (DESIGN 2.2) -- every dropped call site is listed in the evidence
     R.inert |= {"print", "warnings.warn", "progbar", "time.sleep", "logger.setLevel", "logging.getLogger",
                 "sys.stderr.flush"}
